@@ -539,6 +539,14 @@ func (st *State) intrinsic(caller *frame, fn *ssa.Function, args []Value) (Value
 		st.templateData = nil
 		st.fsEvents = nil
 		return out, true
+	case "verifFaults":
+		st.faultsOn = st.Branch(args[0].(*Term))
+		return nil, true
+	case "verifFaultHit":
+		if len(st.faultsHit) == 0 {
+			return "", true
+		}
+		return st.faultsHit[len(st.faultsHit)-1], true
 	case "verifIsReplay":
 		return False, true
 	case "verifNote":
